@@ -3,6 +3,12 @@ import json
 import os
 from vf import Inconclusive, parallel, require_clean, validate_traces, trace_slice, vfj_lines, b2s
 
+CLAIM = {
+    "text": "TLC exhaustively checks implementation-shaped models of both scanners (ScannerImm/ScannerBuf: every stream over {a,CR,LF} up to the bound, every chunking, stall and failure position, buffer sizes 1..4) for exact splitting, single error report, no read after the end, buffer lifetime (no write under a handed-out view), refinement of the abstract Scanner and termination; every complete model behaviour is replayed on the real scanners (retained slices re-read at the end) and seeded random real executions (incl. the 128 KiB production wiring) are validated by TLC against the abstract spec.",
+    "note": "Bounded: exhaustive only within the stated stream length/alphabet/buffer sizes; beyond that seeded random traces. Trusted: Go runtime, the scripted io.Reader of the harness, TLC.",
+    "technique": "TLA+ refinement model checking (TLC) + model-behaviour replay + trace validation",
+}
+
 ALPHA = "{97, 13, 10}"
 INVS = "Bounds PrefixOK EndOK ErrOK NoReadAfterEnd Lifetime"
 
@@ -58,7 +64,7 @@ def check(run):
     if nvec < 1000:
         raise Inconclusive("generator produced only %d vectors" % nvec)
     res_path = os.path.join(run.scratch, "c04-replay.json")
-    run.drv(["c04-replay", "-in", vec_path, "-out", res_path])
+    run.drv(["replay", "-in", vec_path, "-out", res_path])
     res = json.load(open(res_path))
     run.cov["traces_validated_against_impl"] += res["runs"]
     run.cov["evaluations"] += res["runs"]
@@ -73,7 +79,7 @@ def check(run):
                           m["got"], [b2s(t) for t in v["toks"]]), m)
     # ---- B2: recorded random executions validated against the abstract Scanner
     tr = os.path.join(run.scratch, "c04-trace.ndjson")
-    p = run.drv(["c04-trace", "-out", tr, "-n", 400 if quick else 4000, "-maxlen", 300 if quick else 1500,
+    p = run.drv(["trace", "-out", tr, "-n", 400 if quick else 4000, "-maxlen", 300 if quick else 1500,
                  "-big", 1 if quick else 4])
     res, r = validate_traces(run, "Scanner_Trace", tr, invariants=("Final", "ErrOnce"), xmx="12g")
     ntr = sum(1 for line in open(tr) if '"event":"reset"' in line)
